@@ -304,6 +304,7 @@ class Check(PropertyCheck):
     def __init__(self, tier, seed):
         super().__init__(tier, seed)
         self._cache: dict[str, dict] = {}
+        self._shape_err: set[str] = set()  # cases on which the model reports a shape error inside a kernel
         self._all: list[dict] = []
 
     # ---------------------------------------------------------------------------------------------
@@ -570,7 +571,10 @@ class Check(PropertyCheck):
         for r in rows:
             rv = self._opt(r)
             if rv is None and r is None:
-                return {'outcome': 'apply:model-shape-error'}
+                # a JAX primitive of the kernel rejects its shapes (negative pad width, window larger than the
+                # operand, ...): the model says that the application raises, not which exception type
+                self._shape_err.add(lib.case_id(case))
+                return {'outcome': 'apply:shape-error'}
             ys.append(rv)
         dname = {'F32': 'float32', 'F64': 'float64'}[lib.coqparse.ctor(da[0])[0]]
         return {'outcome': 'ok', 'stored_fft': self._opt(stored), 'shape': list(out) + [case['n']], 'y': ys, 'dtype': dname}
@@ -580,6 +584,8 @@ class Check(PropertyCheck):
             return obs
         k = case['kind']
         if obs.get('outcome') != 'ok':
+            if lib.case_id(case) in self._shape_err and obs.get('outcome') in ('apply:TypeError', 'apply:ValueError'):
+                return {'outcome': 'apply:shape-error'}
             return {'outcome': obs.get('outcome')}
         if k == 'default':
             return {'outcome': 'ok', 'value': obs['value']}
